@@ -152,7 +152,17 @@ class Run(object):
 
     # ---- logging
     def log(self, line):
+        self.resolve_timers()
         self.cur.append(line)
+
+    def resolve_timers(self):
+        """Name the timers set by a callee the clock does not know (`consumer_fakeclient.LazyTimerLine`): by now the
+        caller of `callLater` has stored the handle."""
+        from harness.lib.consumer_fakeclient import LazyTimerLine
+
+        for i, l in enumerate(self.cur):
+            if isinstance(l, LazyTimerLine):
+                self.cur[i] = l.resolve(getattr(self, "consumer", None))
 
     def observer(self, event):
         f = event.get("log_failure")
@@ -396,6 +406,7 @@ class Run(object):
             ok = True
             self.log("crash %s" % type(e).__name__)
             self.crashed = True
+        self.resolve_timers()
         if not ok:
             return ["bad-op"]
         if ok == "stale" and not self.cur and not self.crashed:
@@ -403,6 +414,7 @@ class Run(object):
         if not self.crashed:
             c = self.consumer
             self.log("probe %s %s" % (opt(c.last_processed_offset), opt(c.last_committed_offset)))
+        self.resolve_timers()
         return self.cur
 
     def run(self):
